@@ -49,7 +49,7 @@ PROPS = {
         not_decided=["escape rewriting of quoted strings (regexes RE / UNNECESSARY_ESCAPES + closure): assumed value-preserving (verif::rewrite_escapes); C04's escape clause is undecided",
                      "that `0.5` and `.5` denote the same number is the reader's arithmetic, no numeric-literal semantics is specified"],
         assumptions=["std string primitives agree with their Seq<char> specs (class B wrappers)"]),
-    "C10": dict(units=["ctx", "tok", "lib"], bounded=[dict(kind="lib", witnesses="C10_WITNESSES")],
+    "C10": dict(units=["ctx", "tok", "lib"], bounded=[dict(kind="lib", witnesses="C10_WITNESSES"), dict(kind="corpus", kinds=["whitespace"], configs="C10"), dict(kind="inject", kinds=["whitespace"])],
         explanation="single source of newline/indent trivia proved against the configuration (ctx); format_token normalises newlines inside block comments/long strings and right-trims line comments; "
                     "format_eof ends a non-empty trivia list with exactly one configured newline; format_code returns the printed AST unmodified.",
         not_decided=["that every trivia-construction site in functions outside the units uses these helpers"],
@@ -164,6 +164,7 @@ EXPR_WITNESSES = [
     w(f"local x = {a40} or {a40} + ({b53} --[[c]] :: T) < {'c'*32}\n", syntax="luau", sweep=(1, 200)),
     w(f"return ({a40}.f()) + (...), ({a40}()), (...)\n", sweep=(1, 200)),
     w("local a = (#t) ^ 2\nlocal b = (not x) ^ y\nlocal c = (-x) ^ 2\n", sweep=(1, 200)),
+    w(f"local d = {a40} * (-n) ^ f + (not {b53}) ^ g\nreturn (-offset) ^ power + bias, x .. (#y) ^ z .. w\n", sweep=(1, 200)),
     # every pair of operators with the parentheses on either side (both associativities): grouping is never changed
     w("".join(f"local v{i}_{j} = (a {o1} b) {o2} c, a {o1} (b {o2} c)\n" for i, o1 in enumerate(["^", "..", "*", "+", "==", "and", "or"]) for j, o2 in enumerate(["^", "..", "*", "+", "==", "and", "or"]))
       + "local u = -(a ^ b), (-a) ^ b, not (a == b), (not a) == b, #(a .. b), (#a) .. b\n", sweep=(1, 200)),
@@ -185,6 +186,9 @@ BLOCK_WITNESSES = [
     w("\n\nlocal function setup( )\n\tlocal   x = 1\nend\n", oracle="contains", contains="\n\nlocal function setup( )\n", range=(27, 40)),
     w("local a = 1;\n(f)()\nf();\n(g).x = 1\nrepeat until x;\n(h)()\n", oracle="selfverify"),
     w("x += y;\n(f)()\nx -= 1;\n(g).y += 2\n", oracle="selfverify", syntax="luau"),
+    # the value in front of the `(` is the LAST one of the statement
+    w("local count, last = 0, queue.tail;\n(last or queue).next = nil\na, b = 1, f();\n(g)()\nlocal s, t = 'x', u[1];\n(t)()\n", oracle="parse"),
+    w("local count, last = 0, queue.tail;\n(last or queue).next = nil\na, b = 1, f();\n(g)()\nlocal s, t = 'x', u[1];\n(t)()\n", oracle="tree"),
 ]
 _R1 = 'local first   =  1; -- keep me\n\nlocal second   =   { 1,2 }\nlocal third    =  3\n'
 _R2 = 'local function f()\n  local  a = 1\n\n  local b   =   2\n  return   a+b\nend\n'
@@ -208,6 +212,8 @@ SORT_WITNESSES = [
     # an ignore region that starts in front of one require group and ends behind the next one: neither group is touched, later groups are sorted
     w('local x   =  1\n\n-- stylua: ignore start\nlocal b   = require("b")\nlocal a = require( "a" )\n\nlocal d   =   require("d")\nlocal c =   require( "c" )\n-- stylua: ignore end\n\nlocal z   =  2\nlocal f = require("f")\nlocal e = require("e")\n',
       oracle="contains", contains='-- stylua: ignore start\nlocal b   = require("b")\nlocal a = require( "a" )\n\nlocal d   =   require("d")\nlocal c =   require( "c" )\n-- stylua: ignore end\n\nlocal z = 2\nlocal e = require("e")\nlocal f = require("f")\n', **SR),
+    # a member that spans several lines does not split its group
+    w('local Zebra = require(\n\tlong.path\n)\nlocal Apple = require("apple")\nlocal Mango = require("mango")\n', oracle="contains", contains='local Apple = require("apple")\nlocal Mango = require("mango")\nlocal Zebra = require(long.path)\n', **SR),
     # the sort is stable: requires bound to the same name keep their order (a later one shadows an earlier one)
     w('local Util = require("shared.util")\nlocal Signal = require("signal")\nlocal Util = require("client.util")\nlocal Alpha = require("z")\nlocal Alpha = require("a")\n', oracle="contains",
       contains='local Alpha = require("z")\nlocal Alpha = require("a")\nlocal Signal = require("signal")\nlocal Util = require("shared.util")\nlocal Util = require("client.util")\n', **SR),
@@ -347,6 +353,8 @@ CORPUS_CONFIGS_QUICK = [dict(), dict(collapse_simple_statement="Always", call_pa
                         dict(indent_type="Spaces", indent_width="3", line_endings="Windows", quote_style="ForceSingle", space_after_function_names="Always"), dict(sort_requires="true")]
 CORPUS_WIDTHS_QUICK = [100, 50, 25, 10]
 CORPUS_CONFIGS_C11 = [dict(call_parentheses="None"), dict(call_parentheses="NoSingleString"), dict(call_parentheses="NoSingleTable", collapse_simple_statement="Always"), dict(call_parentheses="Always")]
+CORPUS_CONFIGS_C10 = [dict(), dict(line_endings="Windows", indent_type="Spaces", indent_width="3"), dict(indent_type="Spaces", indent_width="2", collapse_simple_statement="Always", call_parentheses="None"),
+                      dict(line_endings="Windows", sort_requires="true", quote_style="ForceSingle"), dict(indent_type="Spaces", indent_width="1", space_after_function_names="Always")]
 CORPUS_CONFIGS_C12 = [dict(sort_requires="true"), dict(sort_requires="true", call_parentheses="None", indent_type="Spaces")]
 CORPUS_CONFIGS_THOROUGH = CORPUS_CONFIGS_QUICK + [dict(call_parentheses="Input", quote_style="AutoPreferSingle"), dict(call_parentheses="NoSingleTable", collapse_simple_statement="ConditionalOnly"),
                                                   dict(call_parentheses="NoSingleString", collapse_simple_statement="FunctionOnly", space_after_function_names="Definitions"), dict(indent_width="1", quote_style="ForceDouble", space_after_function_names="Calls")]
